@@ -96,6 +96,7 @@ type Conn struct {
 	charset string
 	coll    mysql.CollationID
 	vars    *mysql.SessionVariables
+	varsSet bool
 	needSet bool
 	hang    chan struct{}
 	Used    bool // a statement was executed during the current lease
@@ -200,6 +201,7 @@ func (c *Conn) call(op, arg string) (string, error) {
 		return kind, errBackend(op)
 	case "closed":
 		c.Closed = true
+		c.InTx = false // the backend session is gone, and with it its transaction
 		w.log(c.pool, c, op, arg, "closed")
 		return kind, errClosed(op)
 	case "hang":
@@ -439,6 +441,7 @@ func (c *Conn) SetSessionVariables(frontend *mysql.SessionVariables) (bool, erro
 	changed, err := c.vars.SetEqualsWith(frontend)
 	if changed {
 		c.needSet = true
+		c.varsSet = true
 	}
 	return changed, err
 }
@@ -466,6 +469,7 @@ func (c *Conn) SyncSessionVariables(frontend *mysql.SessionVariables) error {
 		return nil
 	}
 	c.needSet = true
+	c.varsSet = true
 	return c.writeSetLocked()
 }
 
